@@ -86,7 +86,7 @@ def _repoint(prog):
     for i, op in enumerate(prog):
         if op.get("op") == "fire" and op.get("extra"):
             last_extra = i
-        if op.get("op") == "danger":
+        if op.get("op") in ("danger", "at_dist"):
             op["fire"] = last_extra if last_extra is not None else 0
     # a danger op whose fire is not an extra-data fire would raise AttributeError deterministically on both sides: fine
 
@@ -286,9 +286,14 @@ def gen_history(seed, tier):
             prog.append({"op": "fire", "calc": ctx["calc"], "shot": shots[0], "range": [round(rft, 1), "Foot"],
                          "step": [round(rft / 10, 2), "Foot"], "extra": True})
             prog.append({"op": "danger", "fire": len(prog) - 1,
-                         "at": bare(rng, b, "distance", rft * rng.uniform(0.3, 0.9), 0),
+                         "at": (bare(rng, b, "distance", rft * rng.uniform(0.3, 0.9), 0) if rng.random() < 0.5 else
+                                # boundary values of "first row with distance >= d" (explicit, so that rounding of the
+                                # bare number to 5 digits does not move it off the boundary)
+                                [round(rng.randint(1, 9) * rft / 10 + gen.pick(rng, [0.0, -0.5, 0.5, -1.5, 1.5, -3.0, 3.0, 4.5]), 4), "Foot"]),
                          "height": bare(rng, b, "distance", rng.uniform(0.5, 6), 0.2),
                          "look": gen.pick(rng, [None, bare(rng, b, "angular", rng.uniform(0, 10), 0.3, neg_ok=True)])})
+            prog.append({"op": "at_dist", "fire": len(prog) - 2,
+                         "d": [round(rng.randint(1, 9) * rft / 10 + gen.pick(rng, [0.0, -0.5, 0.5, 1.5, 3.0, 4.5]), 4), "Foot"]})
             continue
         if op["op"] == "gstep":
             prog.append(op)
